@@ -1,5 +1,6 @@
 import DosModel.Model.ReqLoop
 import DosModel.Model.Keccak
+import DosModel.Model.CallData
 /-!
 Line-protocol driver for C19 (see go/props/c19/c19.go for the grammar).
 
@@ -7,18 +8,18 @@ Line-protocol driver for C19 (see go/props/c19/c19.go for the grammar).
   seq <gasLimit> <gasPrice> <chainId> <call>…    real adaptor, each call = name/args/outcomes
   sig <sighex>                                   Signature.ToBigInt
   pk <marshalled G2 hex>                         decodePubKey
+  sel                                            selectors of the ten queue methods (model signature, Lean Keccak)
+  dec <method> <hex>                             go-ethereum's decoder on arbitrary argument bytes (model: Abi.unpack)
+
+Every transaction of a `seq` line carries `data=`: the call data the MODEL predicts (`CallData.Call.data`:
+selector by the Lean Keccak-256 ++ `Abi.encodeRaw`), compared byte for byte with `tx.Data()` of the raw
+transaction the real adaptor handed to the endpoint.
 -/
 namespace Dos.C19Drv
-open Dos Dos.ReqLoop
+open Dos Dos.ReqLoop Dos.Abi Dos.CallData
 
 def synPayload (n a b : Nat) : Bytes :=
   (List.range n).map (fun i => UInt8.ofNat ((a * i + b) % 256))
-
-def adler32 (bs : Bytes) : Nat :=
-  let (s1, s2) := bs.foldl (fun (p : Nat × Nat) x =>
-    let s1 := (p.1 + x.toNat) % 65521
-    (s1, (p.2 + s1) % 65521)) (1, 0)
-  s2 * 65536 + s1
 
 def parseContent (s : String) : Option Bytes :=
   match s.splitOn "." with
@@ -44,52 +45,74 @@ def parseFs : String → Option (Outcome × Bool)
 
 def mod256 (v : Nat) : Nat := v % 2 ^ 256
 
-/-- canonical method + argument rendering of one call, as decoded from the raw transaction -/
-def renderCall (name args : String) : Option String :=
+def parseCall (name args : String) : Option Call :=
   let a := args.splitOn ";"
   match name, a with
-  | "ur", [sig] => do
-    let s ← ofHex sig
-    let (x, y) := toBigInt s
-    pure s!"to=proxy m=updateRandomness args={mod256 x},{mod256 y}"
+  | "sg", [g] => do pure (.setGroupSize (← g.toNat?))
+  | "ur", [sig] => do pure (.updateRandomness (← ofHex sig))
   | "dr", [sig, rid, idx, content] => do
-    let s ← ofHex sig
-    let r ← ofHex rid
-    let i ← idx.toNat?
-    let c ← parseContent content
-    let (x, y) := toBigInt s
-    pure s!"to=proxy m=triggerCallback args={mod256 (requestId r)},{trafficType i},{c.length}:{adler32 c},{mod256 x},{mod256 y}"
+    pure (.dataReturn (← ofHex sig) (← ofHex rid) (← idx.toNat?) (← parseContent content))
   | "rg", [d0, d1, d2, d3, d4] => do
-    let v ← [d0, d1, d2, d3, d4].mapM String.toNat?
-    pure s!"to=proxy m=registerGroupPubKey args={String.intercalate "," (v.map (fun x => toString (mod256 x)))}"
-  | "rn", ["-"] => pure "to=proxy m=registerNewNode args=-"
+    pure (.registerGroupPubKey (← d0.toNat?) (← d1.toNat?) (← d2.toNat?) (← d3.toNat?) (← d4.toNat?))
+  | "rn", ["-"] => pure .registerNewNode
+  | "un", ["-"] => pure .unRegisterNode
+  | "su", [addr] => do
+    let b ← ofHex addr
+    if b.length ≠ 20 then none else pure (.signalUnregister b)
+  | "sc", [a, b, c, d] => do
+    pure (.startCommitReveal (← parseInt a) (← parseInt b) (← parseInt c) (← parseInt d))
   | "cm", [cid, h] => do
-    let c ← cid.toNat?
     let b ← ofHex h
-    if b.length ≠ 32 then none else
-    pure s!"to=cr m=commit args={mod256 c},{toHex b}"
-  | "rv", [cid, sec] => do
-    let c ← cid.toNat?
-    let s ← sec.toNat?
-    pure s!"to=cr m=reveal args={mod256 c},{mod256 s}"
+    if b.length ≠ 32 then none else pure (.commit (← cid.toNat?) b)
+  | "rv", [cid, sec] => do pure (.reveal (← cid.toNat?) (← sec.toNat?))
   | _, _ => none
 
-def seqStep (gl gp cid : Nat) : List Nat → List String → Option (List String)
-  | _, [] => some []
-  | dead, c :: rest =>
+/-- the decoded-argument rendering (as the harness prints what go-ethereum's decoder returns) -/
+def showArg : AbiVal → String
+  | .elem (.num v) => toString (mod256 v)
+  | .elem (.fixed b) => toHex b
+  | .arr l => String.intercalate "," (l.map (fun v => match v with | .num v => toString (mod256 v) | .fixed b => toHex b))
+  | .blob c => s!"{c.length}:{adler32 c}"
+
+/-- canonical contract + method + argument + call data rendering of one call -/
+def renderCall (name args : String) : Option String := do
+  let c ← parseCall name args
+  let m := c.method
+  let to := if m.contract == .proxy then "proxy" else "cr"
+  let shown := c.args.map showArg
+  let argText := match c, shown with
+    | .signalUnregister addr, _ => toHex addr
+    | _, [] => "-"
+    | _, l => String.intercalate "," l
+  pure s!"to={to} m={m.name} args={argText} data={dataText (c.data Keccak.keccak256)}"
+
+def seqStep (cfg : Config) : List Nat → List EndpointView → List String → Option (List String)
+  | _, _, [] => some []
+  | dead, views, c :: rest =>
     match c.splitOn "/" with
     | [name, args, outs] => do
       let fs ← (outs.splitOn ",").mapM parseFs
       let os := fs.map (·.1)
       let (r, dead') := call true dead os
       let raw := r.contacted.filter (fun i => match fs[i]? with | some (_, b) => b | none => false)
+      let cl ← parseCall name args
       let body ← renderCall name args
-      let txs := raw.map (fun i =>
-        s!"{i}:{body} nonce={7 + i} gas={gl} price={if gp = 0 then 2000000000 + i else gp} chain={cid} from=key")
+      let txs := raw.filterMap (fun i => (views[i]?).map (fun v =>
+        let e := envelope cl.method cfg v
+        s!"{i}:{body} nonce={e.nonce} gas={e.gas} price={e.price} chain={e.chainId} from=key"
+          ++ (if e.value = 0 then "" else s!" value={e.value}")))
       let line := s!"err={callErrName r.err} contacted={natsCsv r.contacted} raw={natsCsv raw} tx={if txs.isEmpty then "-" else String.intercalate ";" txs}"
-      let more ← seqStep gl gp cid dead' rest
+      -- an endpoint that accepted the transaction counts it as pending from now on
+      let views' := match acceptedBy r os with
+        | some i => bumpNonce views i
+        | none => views
+      let more ← seqStep cfg dead' views' rest
       pure (line :: more)
     | _ => none
+
+/-- the endpoints as the harness places them: endpoint `i` reports pending nonce `7 + i` and suggests price `2·10^9 + i` -/
+def startViews (k : Nat) : List EndpointView :=
+  (List.range k).map (fun i => { pendingNonce := 7 + i, suggestedPrice := 2000000000 + i })
 
 /-- `cfg` lines: a history of setters, reconnects and calls (RegisterNewNode) on one adaptor -/
 def cfgStep : Adaptor → List String → Option (List String)
@@ -119,7 +142,7 @@ def step (line : String) : String :=
   | "seq" :: gl :: gp :: cid :: calls =>
     match gl.toNat?, gp.toNat?, cid.toNat? with
     | some gl, some gp, some cid =>
-      match seqStep gl gp cid [] calls with
+      match seqStep ⟨gl, gp, cid⟩ [] (startViews 8) calls with
       | some ls => String.intercalate " | " ls
       | none => "bad-op"
     | _, _, _ => "bad-op"
@@ -149,6 +172,8 @@ def step (line : String) : String :=
         | some rep => rep.err.map CallErr.req
       s!"A={callErrName a.err} B={callErrName be} sent=0"
     | none => "bad-op"
+  | ["sel"] =>
+    String.intercalate " " (queueMethods.map (fun m => m.name ++ "=" ++ toHex (selector Keccak.keccak256 m.name m.types)))
   | ["sig", s] =>
     match ofHex s with
     | some b =>
